@@ -326,7 +326,7 @@ func init() {
 }
 
 func init() {
-	register(&Rule{ID: "BIND.fresh-scope", Floor: 2,
+	register(&Rule{ID: "BIND.fresh-scope", Floor: 1,
 		Doc: "in the binder every parameter is bound (Put) in an environment that is, on every path, the result of Copy() of the callee's defining environment made during this call: each activation has a private parameter scope, the defining environment itself is never written",
 		Run: func(c *Ctx) []Obligation {
 			fn, fd, pkg := c.LookupFunc("lisp.(*LEnv).bind")
